@@ -202,6 +202,10 @@ def full_extent(ctx, rule="R15.7"):
                 elif len(pos_args) == 2:
                     lo, hi = ast.unparse(pos_args[0]), ast.unparse(pos_args[1])
                 else:
+                    # range(a, b, step): a strided loop visits every step-th index only; the remainder needs its own loop, none of the kernels has one
+                    n += 1
+                    ctx.violation(rule, site, "`for %s in %s`: strided loop over an array index (elements between the strides / a remainder are not visited)" % (lp.target.id, ast.unparse(it)),
+                                  "stride:%s" % lp.target.id)
                     continue
                 if lo != "0":
                     continue  # triangular / offset loops are index-checked by R15.4 and pair-checked by R08.2
@@ -370,8 +374,13 @@ def mode_terms(ctx, rule="R15.13"):
         site = "%s::%s" % (rel, name)
         acc = [a for a in ast.walk(fn) if isinstance(a, (ast.AugAssign, ast.Assign)) and ast.unparse(a.target if isinstance(a, ast.AugAssign) else a.targets[0]) == target
                and not (isinstance(a, ast.Assign) and isinstance(a.value, ast.Constant))]
-        if len(acc) != 1:
-            raise AnalysisError("anchor vanished: single accumulation into %s in %s" % (target, site))
+        if not acc:
+            raise AnalysisError("anchor vanished: accumulation into %s in %s" % (target, site))
+        if len(acc) > 1:
+            # unrolled / duplicated summation: what one mode adds is no longer one statement - not decided here, the loop rules still run
+            ctx.undecided(rule, site, "%d statements accumulate into %s (unrolled or build-dependent variants): the per-mode term is not decided" % (len(acc), target))
+            n += 1
+            continue
         a = acc[0]
         # locals holding part of the term (an amplitude computed once per mode, ...) are followed to their definitions
         val = _sym_subst(a.value, sym_eval(fn.body, stop=a, opaque=("phase",)))
@@ -389,7 +398,68 @@ def mode_terms(ctx, rule="R15.13"):
     ctx.floor(rule, "mode-summation kernels", n, 3)
 
 
+def accumulator_complete(ctx, rule="R15.14"):
+    """A scalar that is summed up in a loop (`phase += ...`, `krig_fac += ...`) is used only after that loop has finished: no statement
+    inside the summing loop other than the `+=` itself reads it (a use pulled into the loop works with partial sums).  A scalar that is
+    initialised before a loop, plainly re-assigned inside it by an expression that does not read it, and read after the loop holds the
+    contribution of the last pass only (a `+=` that became `=`)."""
+    n = 0
+    for rel in KERNEL_FILES:
+        mod = ctx.prog.mod(rel)
+        for name, fn in sorted(mod.functions.items()):
+            info = mod.pyx.functions.get(name)
+            if info is None:
+                continue
+            scal = {k for k, t in info["locals"].items() if t and "[" not in t}
+            site = "%s::%s" % (rel, name)
+            for lp in [x for x in ast.walk(fn) if isinstance(x, ast.For)]:
+                augs = [a for a in lp.body if isinstance(a, ast.AugAssign) and isinstance(a.target, ast.Name) and a.target.id in scal and isinstance(a.op, (ast.Add, ast.Sub))]
+                for s_ in sorted({a.target.id for a in augs}):
+                    n += 1
+                    readers = [st for st in lp.body if not (isinstance(st, ast.AugAssign) and isinstance(st.target, ast.Name) and st.target.id == s_)
+                               and any(isinstance(x, ast.Name) and x.id == s_ and isinstance(x.ctx, ast.Load) for x in ast.walk(st))]
+                    ctx.check(not readers, rule, site, "`%s` is summed in `for %s` and read only after that loop%s" % (s_, ast.unparse(lp.target), (": used inside it by `%s`" % norm_stmt(readers[0])[:60]) if readers else ""),
+                              "partial-sum:%s:%s" % (s_, ast.unparse(lp.target)))
+                # `+=` that became `=`
+                owner, block = _block_of(fn, lp)
+                if block is None:
+                    continue
+                idx = [i for i, x in enumerate(block) if x is lp][0]
+                for st in lp.body:
+                    if isinstance(st, ast.Assign) and len(st.targets) == 1 and isinstance(st.targets[0], ast.Name) and st.targets[0].id in scal:
+                        s_ = st.targets[0].id
+                        if any(isinstance(x, ast.Name) and x.id == s_ for x in ast.walk(st.value)):
+                            continue
+                        if any(isinstance(a, ast.AugAssign) and isinstance(a.target, ast.Name) and a.target.id == s_ for a in ast.walk(lp)):
+                            continue
+                        init_before = any(isinstance(b, ast.Assign) and len(b.targets) == 1 and isinstance(b.targets[0], ast.Name) and b.targets[0].id == s_ for b in block[:idx])
+                        read_inside = any(isinstance(x, ast.Name) and x.id == s_ and isinstance(x.ctx, ast.Load) for y in lp.body if y is not st for x in ast.walk(y))
+                        read_after = any(isinstance(x, ast.Name) and x.id == s_ and isinstance(x.ctx, ast.Load) for y in block[idx + 1:] for x in ast.walk(y))
+                        if init_before and read_after and not read_inside:
+                            n += 1
+                            ctx.violation(rule, site, "`%s` is initialised before `for %s`, overwritten (not accumulated) in every pass by `%s` and read afterwards: only the last pass counts"
+                                          % (s_, ast.unparse(lp.target), norm_stmt(st)[:60]), "overwritten:%s:%s" % (s_, ast.unparse(lp.target)))
+    ctx.floor(rule, "scalar sums checked for use inside their own loop", n, 8)
+
+
+def build_independent(ctx, rule="R15.15"):
+    """The serial and the OpenMP build run the same statements: the compile-time name OPENMP is tested only in `set_num_threads` (how many
+    threads) and around the `cimport openmp`, never inside a kernel (two hand-written variants of one sum cannot be kept equal by review)."""
+    n = 0
+    for rel in KERNEL_FILES:
+        mod = ctx.prog.mod(rel)
+        for name, fn in sorted(mod.functions.items()):
+            if name == "set_num_threads":
+                continue
+            n += 1
+            tests = [t for t in ast.walk(fn) if isinstance(t, (ast.If, ast.IfExp)) and any(isinstance(x, ast.Name) and x.id == "OPENMP" for x in ast.walk(t.test))]
+            ctx.check(not tests, rule, "%s::%s" % (rel, name), "no compile-time OPENMP branch inside the kernel%s" % ("" if not tests else ": `if %s`" % ast.unparse(tests[0].test)), "openmp-branch")
+    ctx.floor(rule, "kernel functions checked for build-dependent branches", n, 15)
+
+
 def run(ctx):
+    accumulator_complete(ctx)
+    build_independent(ctx)
     mode_terms(ctx)
     double_precision(ctx)
     accumulator_reset(ctx)
